@@ -10,6 +10,7 @@ import SieveModel.Model.Safety
 import SieveModel.Model.ToList
 import SieveModel.Model.Factory
 import SieveModel.Model.Readback
+import SieveModel.Model.Rename
 /-! Line-protocol driver: one request per line on stdin, one answer per line on stdout. -/
 
 structure DState where
@@ -209,6 +210,36 @@ def lexAnswer (t : Bytes) : String :=
 
 def hexArg (l : List String) : Bytes := match l with | [h] => B.ofHex h | _ => []
 
+/-- `ren old= new= active= scripts=n:c;… faults=LIST:NO,…` — the abstract emulated rename (Model/Rename.lean) -/
+def renameOp (fs : List String) : String :=
+  let hx (v : String) : Bytes := if v == "e" || v == "-" then [] else B.ofHex v
+  let scripts : List (Bytes × Bytes) :=
+    let v := kv fs "scripts"
+    if v == "-" then [] else (v.splitOn ";").filterMap fun e =>
+      match e.splitOn ":" with
+      | [n, c] => some (hx n, hx c)
+      | _ => none
+  let faults : List (String × String) :=
+    let v := kv fs "faults"
+    if v == "-" then [] else (v.splitOn ",").filterMap fun e =>
+      match e.splitOn ":" with
+      | [a, b] => some (a, b)
+      | _ => none
+  let faultOf (k : String) : Rename.Fault :=
+    match faults.find? (fun p => p.1 == k) with
+    | some (_, "NO") => .no
+    | some (_, "BYE") => .bye
+    | some (_, "SILENT") => .silent
+    | some (_, "LOST") => .lost
+    | _ => .none
+  let plan : Rename.Step → Rename.Fault
+    | .list => faultOf "LISTSCRIPTS" | .get => faultOf "GETSCRIPT" | .put => faultOf "PUTSCRIPT"
+    | .setactive => faultOf "SETACTIVE" | .delete => faultOf "DELETESCRIPT"
+  let (s', r) := Rename.run id plan ⟨scripts, kvOptBytes fs "active"⟩ (kvBytes fs "old") (kvBytes fs "new")
+  let rs := match r with | .true => "b1" | .false => "b0" | .error => "error"
+  let sc := ";".intercalate (s'.scripts.map fun p => hexOr p.1 ++ ":" ++ hexOr p.2)
+  s!"res={rs} active={match s'.active with | none => "-" | some a => hexOr a} scripts={if sc.isEmpty then "-" else sc}"
+
 def answer (st : DState) (line : String) : DState × String :=
   match line.splitOn " " with
   | "lex" :: rest => (st, lexAnswer (hexArg rest))
@@ -249,6 +280,7 @@ def answer (st : DState) (line : String) : DState × String :=
   | "fbr" :: fs => (st, factoryRoundTrip st fs)
   | "c" :: fs => clientOp st fs
   | "fs" :: args => fsOp st args
+  | "ren" :: fs => (st, renameOp fs)
   | _ => (st, "bad-request")
 
 partial def loop (h : IO.FS.Stream) (out : IO.FS.Stream) (st : DState) : IO Unit := do
